@@ -126,3 +126,95 @@ Fixpoint xsd_b64_nows (t : str) : option (list N) :=
    iff it is valid once all XML whitespace is taken out *)
 Definition xsd_base64Binary (s : str) : option (list N) :=
   xsd_b64_nows (filter (fun c => negb (xml_ws c)) s).
+
+(* ---- QName (Namespaces in XML 1.0, productions [4]-[11]; XML 1.0 5th ed. [4],[4a]) ---- *)
+Definition in_cp_ranges (c : N) (t : list (N * N)) : bool :=
+  existsb (fun r => (fst r <=? c) && (c <=? snd r)) t.
+
+(* NameStartChar without ':' *)
+Definition xml_name_start_ranges : list (N * N) :=
+  [(65, 90); (95, 95); (97, 122); (0xC0, 0xD6); (0xD8, 0xF6); (0xF8, 0x2FF); (0x370, 0x37D);
+   (0x37F, 0x1FFF); (0x200C, 0x200D); (0x2070, 0x218F); (0x2C00, 0x2FEF); (0x3001, 0xD7FF);
+   (0xF900, 0xFDCF); (0xFDF0, 0xFFFD); (0x10000, 0xEFFFF)].
+(* NameChar adds: "-" | "." | [0-9] | #xB7 | [#x0300-#x036F] | [#x203F-#x2040] *)
+Definition xml_name_extra_ranges : list (N * N) :=
+  [(45, 46); (48, 57); (0xB7, 0xB7); (0x300, 0x36F); (0x203F, 0x2040)].
+
+Definition xml_ncname_start (c : N) : bool := in_cp_ranges c xml_name_start_ranges.
+Definition xml_ncname_char (c : N) : bool :=
+  in_cp_ranges c xml_name_start_ranges || in_cp_ranges c xml_name_extra_ranges.
+Definition xsd_ncname (s : str) : bool :=
+  match s with
+  | [] => false
+  | c :: r => xml_ncname_start c && forallb xml_ncname_char r
+  end.
+
+(* QName ::= (Prefix ':')? LocalPart *)
+Record qname_sp := mk_qname_sp { q_prefix : option str; q_local : str }.
+Definition wf_qname (q : qname_sp) : bool :=
+  xsd_ncname (q_local q) && match q_prefix q with None => true | Some p => xsd_ncname p end.
+Definition lex_qname (q : qname_sp) : str :=
+  match q_prefix q with None => q_local q | Some p => p ++ [58] ++ q_local q end.
+
+(* the in-scope namespace bindings: prefix (None = default namespace) -> URI *)
+Definition nsenv := list (option str * str).
+Definition opt_str_eqb (a b : option str) : bool :=
+  match a, b with
+  | None, None => true
+  | Some x, Some y => str_eqb x y
+  | _, _ => false
+  end.
+Fixpoint env_lookup (k : option str) (e : nsenv) : option str :=
+  match e with
+  | [] => None
+  | (k', u) :: r => if opt_str_eqb k' k then Some u else env_lookup k r
+  end.
+
+(* the value: (namespace name or None, local part).  A prefix must be bound to a
+   non-empty URI (else the literal is not a QName in this context); an unprefixed
+   name takes the default namespace when one is declared *)
+Definition val_qname (e : nsenv) (q : qname_sp) : option (option str * str) :=
+  match q_prefix q with
+  | Some p => match env_lookup (Some p) e with
+              | Some (c :: u) => Some (Some (c :: u), q_local q)
+              | _ => None
+              end
+  | None => match env_lookup None e with
+            | Some (c :: u) => Some (Some (c :: u), q_local q)
+            | _ => Some (None, q_local q)
+            end
+  end.
+
+(* expanded-name notation {uri}local used for QName values *)
+Definition expanded_name (v : option str * str) : str :=
+  match fst v with
+  | Some u => [123] ++ u ++ [125] ++ snd v
+  | None => snd v
+  end.
+
+(* ---- double: sign? (digit+ ('.' digit* )? | '.' digit+) ([eE] sign? digit+)? | sign? INF | NaN ---- *)
+Record exp_sp := mk_exp_sp { x_upper : bool; x_sign : sign_sp; x_digits : str }.
+Inductive double_sp :=
+| DbNum (mant : decimal_sp) (ex : option exp_sp)
+| DbInf (sg : sign_sp)
+| DbNaN.
+Definition wf_exp (x : exp_sp) : bool := all_digits (x_digits x) && negb (length (x_digits x) =? 0)%nat.
+Definition wf_double (d : double_sp) : bool :=
+  match d with
+  | DbNum m ex => wf_decimal m && match ex with None => true | Some x => wf_exp x end
+  | _ => true
+  end.
+Definition lex_exp (x : exp_sp) : str := [if x_upper x then 69 else 101] ++ lex_sign (x_sign x) ++ x_digits x.
+Definition lex_double (d : double_sp) : str :=
+  match d with
+  | DbNum m ex => lex_decimal m ++ match ex with None => [] | Some x => lex_exp x end
+  | DbInf sg => lex_sign sg ++ [73;78;70]
+  | DbNaN => [78;97;78]
+  end.
+Definition val_exp (x : exp_sp) : Z :=
+  if sign_neg (x_sign x) then (- Z.of_N (str_val (x_digits x)))%Z else Z.of_N (str_val (x_digits x)).
+(* the decimal number a numeric literal denotes; XSD maps it to the nearest
+   binary64 value (that rounding is not specified here) *)
+Definition val_double_num (m : decimal_sp) (ex : option exp_sp) : decnum :=
+  let v := val_decimal m in
+  mk_decnum (dn_neg v) (dn_coeff v) (dn_exp v + match ex with None => 0 | Some x => val_exp x end).
